@@ -245,6 +245,7 @@ class ElementList(MutableSequence):
         """
         if any(c is child for c in self.list):
             self.remove(child)  # the child is moved: it must not be listed twice
+            by_name_index = -1  # ... and the positions have shifted: the by-name position is taken from the list
         if child.parent != self.element and self.element._is_valid_child(child):
             # attach the child here, at the requested position: going through ``child.parent = ...``
             # (as _can_add_child does) would append it at the end of the list and drop the index
